@@ -386,6 +386,17 @@ func (t *WeightedMerkleTrie) Commit(collapseLevel int) (storage.Batcher, error) 
 		close(createdChan)
 		wg.Wait()
 		t.dropRecreatedFromTempDeleted()
+		if t.db != nil {
+			// a node that is already in storage also belongs to an earlier commit:
+			// rolling this commit back must not delete it
+			kept := t.created[:0]
+			for _, h := range t.created {
+				if _, err := t.db.Get(h); err != nil {
+					kept = append(kept, h)
+				}
+			}
+			t.created = kept
+		}
 	}()
 	t.collectDeleteAndCreated(deleteChan, createdChan, wg)
 	if ok {
